@@ -30,4 +30,16 @@ CHECKS = {
   "note": COMMON_NOTE + "Python sorted() on (name, branch) tuples, '%d' and dict semantics are modelled. SHA-1 is uninterpreted in the theorems. The kind words come from the regenerated SnapshotTargetType table.",
   "technique": "Coq proof (sorting/permutation, length-prefixed decode-encode) over a hand-written model + extracted-model differential correspondence + regenerated tables",
  },
+ "C03": {
+  "text": "Theorems over the Gallina model of revision_git_object / Revision (validators, legacy extra-header migration): an independent positional commit parser recovers tree, parents, author and committer lines, ordered extra headers with their multi-line values and the message from the manifest, for ALL revisions whose extra-header keys are well-formed (any parents, every presence combination, arbitrary value/name/offset/message bytes); manifest injectivity on those fields; irrelevance of type/synthetic/name/email/other metadata; attribute vs legacy-metadata headers give the same manifest; the validators' presence matrix. The full-strength parse statement (arbitrary keys) is REFUTED in Coq (C03_parse_full_refuted) and recorded as a known finding with class 'extra-header key not well-formed'. Tied to the code by byte-exact manifests/ids on generated revisions and by the extracted parser applied to the implementation's manifests.",
+  "design_ref": "DESIGN.md section 5, C03",
+  "note": COMMON_NOTE + "Date text and offset bytes come from model/Time.v (C16). SHA-1 is uninterpreted. Agreement with real git/dulwich on the expressible subset is validation only. Known finding: exotic extra-header keys (known_findings.jsonl).",
+  "technique": "Coq proof (header-list encode/parse inverse, positional commit parser) over a hand-written model + extracted-model differential correspondence",
+ },
+ "C04": {
+  "text": "Theorems over the Gallina model of release_git_object / Release: an independent tag parser recovers exactly object, type, tag name, tagger line and message for ALL releases with a target (five target types, author/date presence, arbitrary name/message/fullname/offset bytes), the type map is injective (target type recoverable), manifests are injective on the tag fields, synthetic/metadata/name/email are irrelevant, the validator accepts exactly (date => author), a missing target is a TypeError. Tied to the code by byte-exact manifests/ids on generated releases, the extracted parser applied to the implementation's manifests, and the regenerated target_type_to_git table.",
+  "design_ref": "DESIGN.md section 5, C04",
+  "note": COMMON_NOTE + "Date text and offset bytes come from model/Time.v (C16). SHA-1 is uninterpreted. Agreement with real git/dulwich is validation only.",
+  "technique": "Coq proof (header-list encode/parse inverse) over a hand-written model + extracted-model differential correspondence + regenerated tables",
+ },
 }
